@@ -1128,8 +1128,14 @@ func (db *DB) WriteDatabaseAt(ctx context.Context, f *os.File, data []byte, offs
 	// Track dirty pages if we are using a rollback journal. This isn't
 	// necessary with the write-ahead log (WAL) since pages are appended
 	// instead of overwritten. We can determine the dirty set at commit-time.
+	//
+	// A rollback journal transaction can also run while the database is still
+	// marked as WAL: "PRAGMA journal_mode = DELETE" checkpoints and removes the
+	// WAL and then rewrites page 1 under a rollback journal. SQLite only holds
+	// the RESERVED lock in a rollback journal transaction so track the page
+	// then too, otherwise the LTX file for that transaction has no pages.
 	pgno := uint32(offset/int64(db.pageSize)) + 1
-	if db.Mode() == DBModeRollback {
+	if db.Mode() == DBModeRollback || db.InWriteTx() {
 		db.dirtyPageSet[pgno] = struct{}{}
 	}
 
